@@ -2,16 +2,18 @@ module verif/harness
 
 go 1.26
 
-require github.com/platinummonkey/go-concurrency-limits v0.0.0
+require (
+	github.com/DataDog/datadog-go/v5 v5.6.0
+	github.com/platinummonkey/go-concurrency-limits v0.0.0
+	github.com/rcrowley/go-metrics v0.0.0-20180503174638-e2704e165165
+	google.golang.org/grpc v1.71.1
+)
 
 require (
-	github.com/DataDog/datadog-go/v5 v5.6.0 // indirect
-	github.com/rcrowley/go-metrics v0.0.0-20180503174638-e2704e165165 // indirect
 	golang.org/x/net v0.38.0 // indirect
 	golang.org/x/sys v0.31.0 // indirect
 	golang.org/x/text v0.23.0 // indirect
 	google.golang.org/genproto/googleapis/rpc v0.0.0-20250115164207-1a7da9e5054f // indirect
-	google.golang.org/grpc v1.71.1 // indirect
 	google.golang.org/protobuf v1.36.4 // indirect
 )
 
